@@ -11,7 +11,8 @@ is exactly the shape that switches the real decoder to its RLE "fast lossless" p
 namespace Jxl.Enc
 open Jxl.Entropy
 
-/-- 0 fixed prefix · 1 prefix (Huffman) · 2 ANS · 3 prefix + LZ77 runs · 4 ANS + LZ77 runs -/
+/-- 0 fixed prefix · 1 prefix (Huffman) · 2 ANS · 3 prefix + LZ77 runs · 4 ANS + LZ77 runs ·
+5 prefix + general LZ77 (previous sample / previous row neighbourhood) · 6 ANS + general LZ77 -/
 abbrev EntMode := Nat
 
 structure Coder where
@@ -41,36 +42,72 @@ def runItems (minLen : Nat) (toks : List (Nat × Nat)) : List Item :=
 
 def bitsFor (n : Nat) : Nat := if n ≤ 1 then 0 else Nat.log2 (n - 1) + 1
 
-/-- items of one section for a mode (`toks` tagged by context index) -/
-def sectionItems (mode : EntMode) (toks : List (Nat × Nat)) : List Item :=
-  if mode == 3 ∨ mode == 4 then runItems 3 toks else toks.map fun (c, v) => .lit c v
+/-- length of the match of position `i` against `i - d` (overlap allowed), capped -/
+def matchLen (a : Array Nat) (i d cap : Nat) : Nat :=
+  let rec go (fuel k : Nat) : Nat :=
+    match fuel with
+    | 0 => k
+    | fuel + 1 => if i + k < a.size ∧ a.getD (i + k) 0 == a.getD (i + k - d) 1 then go fuel (k + 1) else k
+  go cap 0
 
-/-- build the coder for `numCtx` contexts with cluster map `clusters`, fitted to all sections -/
-def mkCoder (mode : EntMode) (numCtx : Nat) (clusters : List Nat) (sections : List (List (Nat × Nat))) : Coder :=
-  let all := sections.flatMap id
+/-- greedy LZ77 parse with copies from the previous sample, the previous row and its neighbours
+(`mult` = the distance multiplier of the sub-bitstream = its widest channel) -/
+def lzItems (mult : Nat) (toks : List (Nat × Nat)) : List Item :=
+  let vals := (toks.map (·.2)).toArray
+  let ctxs := (toks.map (·.1)).toArray
+  let cands := [1, mult, mult + 1, mult - 1, 2, 2 * mult].filter (· ≥ 1)
+  let rec go (fuel i : Nat) : List Item :=
+    match fuel with
+    | 0 => []
+    | fuel + 1 =>
+      if i ≥ vals.size then []
+      else
+        let best := cands.foldl (fun (b : Nat × Nat) d =>
+          if d ≤ i then
+            let l := matchLen vals i d 300
+            if l > b.1 then (l, d) else b
+          else b) (0, 0)
+        if best.1 ≥ 3 then .copy (ctxs.getD i 0) best.1 (distCodeFor mult best.2) :: go fuel (i + best.1)
+        else .lit (ctxs.getD i 0) (vals.getD i 0) :: go fuel (i + 1)
+  go (vals.size + 1) 0
+
+/-- items of one section for a mode (`toks` tagged by context index) -/
+def sectionItems (mode : EntMode) (mult : Nat) (toks : List (Nat × Nat)) : List Item :=
+  if mode == 3 ∨ mode == 4 then runItems 3 toks
+  else if mode == 5 ∨ mode == 6 then lzItems mult toks
+  else toks.map fun (c, v) => .lit c v
+
+/-- build the coder for `numCtx` contexts with cluster map `clusters`, fitted to all sections
+(each with its distance multiplier) -/
+def mkCoder (mode : EntMode) (numCtx : Nat) (clusters : List Nat) (sections : List (Nat × List (Nat × Nat))) : Coder :=
+  let all := sections.flatMap (·.2)
   let v0 := v0PlanFor numCtx clusters all
   if mode == 0 then { mode := 0, plan := default, v0 }
   else
-    let lz := mode == 3 ∨ mode == 4
+    let lz := mode ≥ 3
+    let rle := mode == 3 ∨ mode == 4
     let nc := numClusters clusters
-    let kind : CoderKind := if mode == 2 ∨ mode == 4 then .ans 8 else .prefix
+    let kind : CoderKind := if mode == 2 ∨ mode == 4 ∨ mode == 6 then .ans 8 else .prefix
     let cm := if lz then clusters ++ [nc] else clusters
     let ncAll := if lz then nc + 1 else nc
-    let cfgs := List.replicate nc (⟨4, 1, 1⟩ : IntegerConfig) ++ (if lz then [⟨0, 0, 0⟩] else [])
+    let cfgs := List.replicate nc (⟨4, 1, 1⟩ : IntegerConfig) ++
+      (if lz then [if rle then ⟨0, 0, 0⟩ else ⟨4, 1, 1⟩] else [])
     let p0 : EntropyPlan :=
       { numDist := numCtx, lz77 := if lz then some { minSymbol := 224, minLength := 3, lenConf := ⟨0, 0, 0⟩ } else none,
         clusterMap := cm, clusterNbits := bitsFor ncAll, coder := kind, configs := cfgs,
         codes := List.replicate ncAll (.auto .auto .auto) }
-    let items := sections.flatMap (sectionItems mode)
+    let secItems := sections.map fun (m, s) => (m, s, sectionItems mode m s)
+    let items := secItems.flatMap (·.2.2)
     let p := p0.resolve items
-    -- every section must be expressible on its own (first item of a section is never a copy)
-    if ncAll ≤ 8 ∧ sections.all (fun s => p.check (sectionItems mode s)) ∧ p.check items then { mode, plan := p, v0 }
+    -- every section must be expressible on its own and expand back to its tokens
+    if ncAll ≤ 8 ∧ secItems.all (fun (m, s, it) => p.check it ∧ expandItems m it == s.map (·.2)) then
+      { mode, plan := p, v0 }
     else { mode := 0, plan := default, v0 }
 
 def Coder.header (c : Coder) (w : BW) : BW :=
   if c.mode == 0 then v0Header w c.v0 else w.bits (encodeHeader c.plan)
 
-def Coder.section (c : Coder) (w : BW) (toks : List (Nat × Nat)) : BW :=
-  if c.mode == 0 then v0Values w c.v0 toks else w.bits (encodeItems c.plan (sectionItems c.mode toks))
+def Coder.section (c : Coder) (w : BW) (mult : Nat) (toks : List (Nat × Nat)) : BW :=
+  if c.mode == 0 then v0Values w c.v0 toks else w.bits (encodeItems c.plan (sectionItems c.mode mult toks))
 
 end Jxl.Enc
